@@ -223,8 +223,9 @@ func hostilePayload(r *hx.Rand, kind int) []byte {
 	switch kind {
 	case 0:
 		return r.Bytes(r.Intn(8)) // shorter than the main header
-	case 1:
-		return append(mainHdr(0, byte(64+r.Intn(192)), 255, w, h), r.Bytes(140)...) // unsupported type
+	case 1: // type at the limit (63 is the last supported one), otherwise a valid first packet
+		p := append(mainHdr(0, hx.Pick(r, byte(62), byte(63), byte(64), byte(65), byte(64+r.Intn(192))), 255, w, h), 0, 0, 0, 64)
+		return append(p, r.Bytes(64+r.Intn(8))...)
 	case 2:
 		return append(mainHdr(0, 0, hx.Pick(r, byte(0), byte(100), byte(126)), w, h), r.Bytes(10)...) // invalid Q
 	case 3: // Q < 128: tables computed from Q (127 gives a negative scale)
@@ -250,6 +251,10 @@ func hostilePayload(r *hx.Rand, kind int) []byte {
 		return append(mainHdr(r.Intn(12), byte(r.Intn(2)), 255, w, h), r.Bytes(r.Intn(6))...)
 	case 10: // continuation without data
 		return mainHdr(r.Intn(12), 0, 255, w, h)
+	case 12, 13: // valid first packet whose scan data ends in (half of) an end-of-image marker
+		p := append(mainHdr(0, byte(r.Intn(2)), 255, w, h), 0, 0, 0, 64)
+		p = append(p, r.Bytes(64+r.Intn(6))...)
+		return append(p, hx.Pick(r, []byte{0xFF, 0xD9}, []byte{0xFF, 0x00}, []byte{0x00, 0xD9}, []byte{0xD9, 0xFF})...)
 	case 11: // maximal offset
 		return append(mainHdr(0xFFFFFF, 0, 255, w, h), r.Bytes(4)...)
 	default:
